@@ -227,7 +227,7 @@ pub fn run(o: &Opts) -> Report {
     run_case(&mut rep, &mut model, &Case { seed: o.seed, stakes: vec![1, 5, 1, 1], acks: vec![3, 4, 2] }, &mut distinct);
     run_case(&mut rep, &mut model, &Case { seed: o.seed, stakes: vec![1, 1, 1, 1], acks: vec![] }, &mut distinct);
     let mut rng = SmallRng::seed_from_u64(o.seed ^ 0x9a17);
-    let cases = if o.thorough() { 3_000 } else { 200 };
+    let cases = if o.thorough() { 20_000 } else { 200 };
     for i in 0..cases {
         let case = gen_case(&mut rng, o.seed.wrapping_mul(977).wrapping_add(i));
         run_case(&mut rep, &mut model, &case, &mut distinct);
